@@ -53,6 +53,9 @@ ExtraUnions(sizes) ==
   \cup {[vars |-> s, nullable |-> FALSE, disc |-> NoDisc] :
       s \in {x \in UNION {InjSeqs(ObjAnnTypes, n) : n \in sizes} : \E i \in 1..Len(x) : HasAnn(x[i])}}
   \cup UNION {{[vars |-> s, nullable |-> FALSE, disc |-> MultiDisc(n)] : s \in InjSeqs(ObjTypes2, n)} : n \in sizes}
+  \* (d) the union schema's own modifiers: a discriminated union that is itself NULLABLE (null decodes to None, every
+  \*     other payload as the discriminator says)
+  \cup UNION {{[vars |-> s, nullable |-> TRUE, disc |-> d] : s \in InjSeqs(ObjTypes2, n), d \in Discs(n)} : n \in sizes}
 
 BaseUnions ==
   CASE Family = "obj"   -> {[vars |-> s, nullable |-> FALSE, disc |-> NoDisc] : s \in UNION {InjSeqs(ObjTypes3, n) : n \in Sizes}}
@@ -104,7 +107,7 @@ PayloadIds(un) ==
   IF un.disc.mode = "none"
     THEN UNION {Instances(un.vars[i], "-") : i \in 1..n} \cup (IF un.nullable THEN {Lit("null")} ELSE {}) \cup {Lit("m:x=7")}
     ELSE UNION {Instances(un.vars[i], tg) : i \in 1..n, tg \in {Tag(j) : j \in 1..n} \cup {un.disc.mapping[m][1] : m \in 1..Len(un.disc.mapping)}}
-         \cup {Lit("m:x=7"), ObjId({"a"}, "-")}
+         \cup {Lit("m:x=7"), ObjId({"a"}, "-")} \cup (IF un.nullable THEN {Lit("null")} ELSE {})
 
 Case(p, un) ==
   LET o == ImplChoose(p, un)
